@@ -328,3 +328,124 @@ pub fn version(sock: &Path) -> HOut<String> {
         }
     })
 }
+
+// ---------------------------------------------------------------------------------
+// A following `GET /` consumed incrementally by a reader thread of the driver.
+
+#[derive(Default)]
+pub struct HfState {
+    pub frames: Vec<WFrame>,
+    pub closed: bool,
+    pub error: Option<String>,
+}
+
+pub struct HttpFollower {
+    pub sse: bool,
+    pub state: std::sync::Arc<std::sync::Mutex<HfState>>,
+    stop: std::sync::Arc<std::sync::atomic::AtomicBool>,
+}
+
+impl Drop for HttpFollower {
+    fn drop(&mut self) {
+        self.stop.store(true, std::sync::atomic::Ordering::SeqCst);
+    }
+}
+
+/// Take the complete units (NDJSON lines / SSE events) off the front of `acc`.
+fn take_units(acc: &mut Vec<u8>, sse: bool) -> Result<Vec<WFrame>, String> {
+    let sep: &[u8] = if sse { b"\n\n" } else { b"\n" };
+    let mut end = 0;
+    let mut i = 0;
+    while i + sep.len() <= acc.len() {
+        if &acc[i..i + sep.len()] == sep {
+            end = i + sep.len();
+            i = end;
+        } else {
+            i += 1;
+        }
+    }
+    if end == 0 {
+        return Ok(vec![]);
+    }
+    let whole: Vec<u8> = acc.drain(..end).collect();
+    if sse {
+        parse_sse(&whole)
+    } else {
+        parse_ndjson(&whole)
+    }
+}
+
+/// Returns once the response head (200) has arrived: the server subscribes before it answers.
+pub fn follow_start(sock: &Path, opts: &ROpts, sse: bool) -> Result<HttpFollower, String> {
+    use std::sync::atomic::Ordering;
+    let target = format!("/{}", read_query(opts));
+    let mut req = Req::new("GET", &target);
+    if sse {
+        req = req.header("Accept", b"text/event-stream");
+    }
+    let mut conn = Conn::open(sock).map_err(|e| format!("GET {target}: {e:?}"))?;
+    conn.send(&req.to_bytes()).ok();
+    let (status, headers) = conn
+        .read_head(std::time::Instant::now() + Duration::from_secs(20))
+        .map_err(|e| format!("GET {target}: {e:?}"))?;
+    if status != 200 {
+        return Err(format!("GET {target} answered {status}"));
+    }
+    let want_ct = if sse { "text/event-stream" } else { "application/x-ndjson" };
+    let ct = headers
+        .iter()
+        .find(|(k, _)| k.eq_ignore_ascii_case("content-type"))
+        .map(|(_, v)| v.as_str());
+    if ct != Some(want_ct) {
+        return Err(format!("GET {target}: content-type {ct:?}, expected {want_ct}"));
+    }
+    let chunked = is_chunked(&headers);
+    let state = std::sync::Arc::new(std::sync::Mutex::new(HfState::default()));
+    let stop = std::sync::Arc::new(std::sync::atomic::AtomicBool::new(false));
+    let (st, sp) = (state.clone(), stop.clone());
+    std::thread::spawn(move || {
+        let mut acc = Vec::new();
+        loop {
+            if sp.load(Ordering::SeqCst) {
+                return;
+            }
+            let ended = match conn.read_stream(chunked, Duration::from_millis(20), |_| false, &mut acc) {
+                Ok(e) => e,
+                Err(e) => {
+                    let mut s = st.lock().unwrap();
+                    if !sp.load(Ordering::SeqCst) {
+                        s.error = Some(format!("stream broke: {e:?}"));
+                    }
+                    s.closed = true;
+                    return;
+                }
+            };
+            match take_units(&mut acc, sse) {
+                Ok(mut v) => st.lock().unwrap().frames.append(&mut v),
+                Err(e) => {
+                    let mut s = st.lock().unwrap();
+                    s.error = Some(e);
+                    s.closed = true;
+                    return;
+                }
+            }
+            if ended {
+                let mut s = st.lock().unwrap();
+                if !acc.is_empty() {
+                    s.error = Some(format!("stream ended inside a unit: {:?}", String::from_utf8_lossy(&acc)));
+                }
+                s.closed = true;
+                return;
+            }
+        }
+    });
+    Ok(HttpFollower { sse, state, stop })
+}
+
+impl HttpFollower {
+    /// (frames so far, closed, error)
+    pub fn poll(&self) -> (Vec<WFrame>, bool, Option<String>) {
+        let s = self.state.lock().unwrap();
+        (s.frames.clone(), s.closed, s.error.clone())
+    }
+}
